@@ -110,6 +110,21 @@ CLAIMED["C12"] = dict(
          "iterated joins of `molli combine` (index shift).",
 )
 
+CLAIMED["C17"] = dict(
+    text="Proof: (1) Job.__get__ bound through two driver instances in sequence (and back) returns, each time, a job carrying that "
+         "instance's executable, nprocs, memory and environment (job's own explicit values win), vectorized jobs prepare through the "
+         "bound job, and the shared descriptor object is not modified (so any creation/use order is covered by the frame); "
+         "DriverBase.__init__ for every flag combination. (2) run_local, path-complete over 1..3 commands with symbolic return codes, "
+         "named/unnamed commands and file existence: input files materialised (text/binary), commands run in order in the scratch "
+         "directory with the merged environment, stop at the first failure, stdout/stderr of exactly the executed named commands, "
+         "returned files byte-identical iff they exist, input hash, exit 0 iff all succeeded and all requested files exist, scratch "
+         "directory removed, cwd restored, every stream closed.",
+    ref="DESIGN.md section 3 C17",
+    note="subprocess/tempfile/os/filesystem are a ghost trace model (trusted): child return codes and produced files are unconstrained "
+         "inputs; command list length 1..3 (bounded), names of named commands pairwise distinct; msgpack dump/load of JobInput/JobOutput "
+         "is the assumed msgpack contract.",
+)
+
 NOT_APPLICABLE = {
 }
 
